@@ -1310,10 +1310,15 @@ Stylesheet::findTemplate(
                         // template rules, one for each alternative.  Once an
                         // alternative has made its rule the best one, the others
                         // cannot beat it, and are not in conflict with it.
+                        // An entry with the same pattern text as the one tested
+                        // just before it need not be tested again - unless the
+                        // text contains a QName: the same text is another pattern
+                        // under other namespace declarations.
                         if(!patterns->empty() &&
                            rule != bestMatchedRule &&
                            !(prevMatchPat != 0 &&
                              (prevPat != 0 && equals(*prevPat, *patterns)) &&
+                             indexOf(*patterns, XalanUnicode::charColon) == patterns->length() &&
                              prevMatchPat->getAlternative() == matchPat->getAlternative() &&
                              prevMatchPat->getTemplate()->getPriority() == matchPat->getTemplate()->getPriority()))
                         {
